@@ -1,5 +1,6 @@
 import PMV.Gen.Tvl
 import PMV.Gen.TvlRed
+import PMV.Gen.Cmp
 import PMV.Model.Logic3
 import PMV.Props.C14
 /-
@@ -77,6 +78,64 @@ theorem gen_any_array (xs : List (Bool × Bool)) :
 theorem gen_all_array (xs : List (Bool × Bool)) :
     t3of (Gen.Red.all_arr xs) = ignAll (xs.map pairT3) := by
   rw [ignAll_fold]; exact Gen.Red.all_arr_fold xs
+
+
+/-! #### comparisons regenerated from the source (PMV/Gen/Cmp.lean): `==`, `!=` (qube.py), `<`, `<=`, `>`, `>=` (scalar.py)
+and the mask rule of the tvl_ comparisons (tvl.py `_tvl_op`), in every representation configuration -/
+
+/-- `==` as the code computes it now — Python-bool path, single-bool masks, array mask — is the documented table:
+    both masked ⇒ equal, exactly one masked ⇒ unequal, else the comparison of the whole items -/
+theorem gen_eq_table : ∀ c sm am : Bool,
+    Gen.Cmp.eq_py c sm am = eqSpec c sm am ∧ Gen.Cmp.eq_sca c sm am = eqSpec c sm am ∧
+    Gen.Cmp.eq_arr c sm am = eqSpec c sm am := by decide
+
+/-- `!=` is the complement of `==` in every configuration (the raw comparison being the complement) -/
+theorem gen_ne_table : ∀ c sm am : Bool,
+    Gen.Cmp.ne_py (!c) sm am = !eqSpec c sm am ∧ Gen.Cmp.ne_sca (!c) sm am = !eqSpec c sm am ∧
+    Gen.Cmp.ne_arr (!c) sm am = !eqSpec c sm am := by decide
+
+/-- the values are compared with the right operator, WHOLE items are compared (`np.all` of `==`, `np.any` of `!=` over
+    the item axes), incompatible operands give False / True instead of raising, and the results carry the truth-testing
+    flags all() / any() -/
+theorem gen_eq_ne_meta :
+    Gen.Cmp.eq_sym = .eq ∧ Gen.Cmp.eq_itemred = .all ∧ Gen.Cmp.eq_incompat = some false ∧ Gen.Cmp.eq_truth = .ifAll ∧
+    Gen.Cmp.ne_sym = .ne ∧ Gen.Cmp.ne_itemred = .any ∧ Gen.Cmp.ne_incompat = some true ∧ Gen.Cmp.ne_truth = .ifAny := by
+  decide
+
+/-- ordered comparisons: False wherever either side is masked, in all four configurations -/
+theorem gen_ord_table : ∀ c sm am : Bool,
+    (Gen.Cmp.lt_py c sm am = ordSpec c sm am ∧ Gen.Cmp.lt_pyb c sm am = ordSpec c sm am ∧
+     Gen.Cmp.lt_sca c sm am = ordSpec c sm am ∧ Gen.Cmp.lt_arr c sm am = ordSpec c sm am) ∧
+    (Gen.Cmp.le_py c sm am = ordSpec c sm am ∧ Gen.Cmp.le_pyb c sm am = ordSpec c sm am ∧
+     Gen.Cmp.le_sca c sm am = ordSpec c sm am ∧ Gen.Cmp.le_arr c sm am = ordSpec c sm am) ∧
+    (Gen.Cmp.gt_py c sm am = ordSpec c sm am ∧ Gen.Cmp.gt_pyb c sm am = ordSpec c sm am ∧
+     Gen.Cmp.gt_sca c sm am = ordSpec c sm am ∧ Gen.Cmp.gt_arr c sm am = ordSpec c sm am) ∧
+    (Gen.Cmp.ge_py c sm am = ordSpec c sm am ∧ Gen.Cmp.ge_pyb c sm am = ordSpec c sm am ∧
+     Gen.Cmp.ge_sca c sm am = ordSpec c sm am ∧ Gen.Cmp.ge_arr c sm am = ordSpec c sm am) := by decide
+
+theorem gen_ord_meta :
+    Gen.Cmp.lt_sym = .lt ∧ Gen.Cmp.le_sym = .le ∧ Gen.Cmp.gt_sym = .gt ∧ Gen.Cmp.ge_sym = .ge ∧
+    Gen.Cmp.lt_truth = .ifAll ∧ Gen.Cmp.le_truth = .ifAll ∧ Gen.Cmp.gt_truth = .ifAll ∧ Gen.Cmp.ge_truth = .ifAll := by
+  decide
+
+/-- tvl_ comparisons: masked exactly where either operand is -/
+theorem gen_tvl_mask : ∀ sm am : Bool, Gen.Cmp.tvl_mask sm am = (sm || am) := by decide
+
+/-- the regenerated `==` / `!=` / ordered functions agree with the hand-written model the driver executes -/
+theorem gen_agrees_with_model_eq (sv av : List Int) (sm am : Bool) :
+    Gen.Cmp.eq_arr (itemEq sv av) sm am = eqCode ⟨sv, sm⟩ ⟨av, am⟩ ∧
+    Gen.Cmp.ne_arr (itemNe sv av) sm am = neCode ⟨sv, sm⟩ ⟨av, am⟩ := by
+  have h := gen_eq_table (itemEq sv av) sm am
+  have h' := gen_ne_table (itemEq sv av) sm am
+  rw [← itemNe_eq_not_itemEq] at h'
+  refine ⟨?_, ?_⟩
+  · rw [h.2.2]; cases sm <;> cases am <;> simp [eqSpec, eqCode]
+  · rw [h'.2.2]; cases sm <;> cases am <;> simp [eqSpec, neCode, itemNe_eq_not_itemEq]
+
+theorem gen_agrees_with_model_ord (o : Ord) (s a : NCell) :
+    Gen.Cmp.lt_arr (o.cmp s.v a.v) s.m a.m = ordCode o s a := by
+  rw [(gen_ord_table (o.cmp s.v a.v) s.m a.m).1.2.2.2]
+  cases h1 : s.m <;> cases h2 : a.m <;> simp [ordSpec, ordCode, h1, h2]
 
 /-- the regenerated lane functions agree observably with the hand-written model the driver runs -/
 theorem gen_agrees_with_model_tvl_any (xs : List Cell) :
